@@ -665,7 +665,10 @@ func (c *Conn) heartBeat(ctx context.Context) {
 		case error:
 			// TODO: should we do something here?
 		default:
-			panic(fmt.Sprintf("gocql: unknown frame in response to options: %T", resp))
+			// a well-formed response of a kind that cannot answer OPTIONS: the peer is broken or the
+			// streams are out of step; close the connection with an error instead of crashing the process
+			c.closeWithError(NewErrProtocol("gocql: unexpected frame in response to heartbeat options: %T", resp))
+			return
 		}
 	}
 }
